@@ -269,14 +269,21 @@ pub fn rec_observe(args: &Args) {
         ev(&mut out, &mut s, json!({"op": "ack", "ep": "e2", "mid": 13}), &one);
     }
     // notification builder
-    let seqs: [u64; 14] = [0, 1, 255, 256, 65535, 65536, (1 << 24) - 1, 1 << 24, (1 << 31) - 1, 1 << 31, (1u64 << 32) - 1, 12345, 0x00FF00, 0x01000001];
+    let mut seqs: Vec<u64> = vec![0, 1, 255, 256, 65535, 65536, (1 << 24) - 1, 1 << 24, (1 << 31) - 1, 1 << 31, (1u64 << 32) - 1, 12345, 0x00FF00, 0x01000001];
+    // not only boundaries: values whose bytes all differ, and random ones of every length
+    seqs.extend([0x01020304u64, 0x01000100, 0x7F00FF01, 0xFFFEFDFC, 0x0102, 0x010203, 0xA1B2C3]);
+    for _ in 0..8 {
+        seqs.push(r.next() & 0xFFFF_FFFF);
+        seqs.push(r.next() & 0xFF_FFFF);
+    }
     for tl in 0..=8usize {
         for &seq in &seqs {
             for con in [true, false] {
                 let tok = r.bytes(tl);
-                let pl = *r.pick(&[0usize, 1, 5, 40]);
-                let pay = r.bytes(pl);
-                let mid = r.next() as u16;
+                let pl = *r.pick(&[0usize, 1, 5, 40, 0, 300, 1500]);
+                let pay = if tl == 8 && seq == 12345 && con { r.bytes(70_000) } else { r.bytes(pl) };
+                let rnd = r.next() as u16;
+                let mid = *r.pick(&[0u16, 65535, 256, 255, rnd, rnd.wrapping_mul(31)]);
                 let got = guarded(|| create_notification(mid, tok.clone(), seq as u32, pay.clone(), con));
                 let (st, enc, back, panicked) = match &got {
                     Some(p) => {
